@@ -359,17 +359,17 @@ def strip_coq_comments(txt):
 
 
 def parse_assumptions(out):
-    """Axiom names printed by Print Assumptions in a coqc output."""
+    """Axiom names printed by Print Assumptions in a coqc output (an entry is a line starting in
+    column 0 with a qualified name; its type may continue on indented lines)."""
     ax = []
     if "Axioms:" in out:
         for blk in out.split("Axioms:")[1:]:
             for line in blk.splitlines():
-                m = re.match(r"^([A-Za-z_][A-Za-z0-9_.']*)\s*:", line)
+                if line.startswith("Closed under"):
+                    break
+                m = re.match(r"^([A-Za-z_][A-Za-z0-9_.']*)\s*(:|$)", line)
                 if m:
                     ax.append(m.group(1))
-                elif line.strip() == "" or line.startswith("Closed under"):
-                    if line.startswith("Closed"):
-                        break
     return sorted(set(ax))
 
 
